@@ -1,0 +1,25 @@
+//go:build verif
+
+package p2p
+
+import "github.com/MixinNetwork/mixin/crypto"
+
+// Hooks for the C30 check: the two call sites of SyncHandle.AuthenticateAs.
+// Add-only; nothing here is compiled without the `verif` build tag.
+
+// VerifC30AuthenticateNeighbor runs the handshake of an incoming consumer
+// (direct-neighbor path) on the given client.
+func VerifC30AuthenticateNeighbor(me *Peer, client Client) (*Peer, error) {
+	return me.authenticateNeighbor(client)
+}
+
+// VerifC30UpdateRemoteRelayerConsumers runs the relayed-consumer path.
+func VerifC30UpdateRemoteRelayerConsumers(me *Peer, relayerId crypto.Hash, data []byte) error {
+	return me.updateRemoteRelayerConsumers(relayerId, data)
+}
+
+// VerifC30AuthenticationTransportMessage wraps an authentication message the
+// way connectRelayer sends it.
+func VerifC30AuthenticationTransportMessage(auth []byte) *TransportMessage {
+	return &TransportMessage{Version: TransportMessageVersion, Data: buildAuthenticationMessage(auth)}
+}
